@@ -29,7 +29,8 @@ const (
 // wrapped lists, per import path, the functions simrt provides a same-signature
 // wrapper for. The wrapper has the same name in package simrt.
 var wrapped = map[string]map[string]bool{
-	"os":                             {"ReadFile": true, "ReadDir": true, "WriteFile": true, "Exit": true, "Getwd": true},
+	"os":                             {"ReadFile": true, "ReadDir": true, "WriteFile": true, "Exit": true, "Getwd": true, "OpenFile": true, "Create": true, "CreateTemp": true, "Rename": true, "Remove": true},
+	"time":                           {"Now": true},
 	"path/filepath":                  {"Glob": true, "Abs": true},
 	"go/parser":                      {"ParseFile": true},
 	"golang.org/x/tools/go/packages": {"Load": true},
@@ -38,7 +39,8 @@ var wrapped = map[string]map[string]bool{
 // pure lists functions of the seam packages that touch nothing outside the
 // process; everything else from those packages is reported as unwrapped.
 var pure = map[string]map[string]bool{
-	"os":            {"Getenv": true, "Args": true},
+	"os":            {"Getenv": true, "Args": true, "IsNotExist": true, "IsExist": true, "IsPermission": true, "Getpid": true, "LookupEnv": true},
+	"time":          {"Since": true, "Duration": true, "Sleep": true, "Date": true, "Unix": true, "Parse": true, "Until": true, "After": true, "Tick": true, "NewTimer": true},
 	"path/filepath": {"Join": true, "Ext": true, "Clean": true, "Rel": true, "Base": true, "Dir": true, "ToSlash": true, "FromSlash": true, "IsAbs": true, "Split": true, "Match": true, "VolumeName": true},
 	"go/parser":     {"ParseExpr": true, "ParseExprFrom": true},
 	"golang.org/x/tools/go/packages": {},
@@ -173,6 +175,27 @@ func rewriteFile(p *packages.Package, f *ast.File, abs, rel string, isMain bool,
 				Args: []ast.Expr{n.X, &ast.BasicLit{Kind: token.STRING, Value: strconv.Quote(site)}},
 			}
 			needSimrt = true
+		case *ast.CallExpr:
+			// f.Write(b) / f.WriteString(s) / f.Sync() / f.Close() with f of type *os.File
+			sel, ok := n.Fun.(*ast.SelectorExpr)
+			if !ok {
+				return true
+			}
+			fileMethods := map[string]string{"Write": "FileWrite", "WriteString": "FileWriteString", "Sync": "FileSync", "Close": "FileClose"}
+			wrapper, isFileMethod := fileMethods[sel.Sel.Name]
+			if !isFileMethod {
+				return true
+			}
+			if selInfo, ok := info.Selections[sel]; ok && selInfo.Kind() == types.MethodVal {
+				if ptr, ok := selInfo.Recv().(*types.Pointer); ok {
+					if named, ok := ptr.Elem().(*types.Named); ok && named.Obj().Pkg() != nil && named.Obj().Pkg().Path() == "os" && named.Obj().Name() == "File" {
+						rep.P2Calls["(*os.File)."+sel.Sel.Name]++
+						n.Args = append([]ast.Expr{sel.X}, n.Args...)
+						n.Fun = &ast.SelectorExpr{X: ast.NewIdent("simrt"), Sel: ast.NewIdent(wrapper)}
+						needSimrt = true
+					}
+				}
+			}
 		case *ast.SelectorExpr:
 			id, ok := n.X.(*ast.Ident)
 			if !ok {
